@@ -36,6 +36,8 @@ def run(ctx, broken):
     DOC_CONSTS = {"SCORE_MATCH": 16, "PENALTY_GAP_START": 3, "PENALTY_GAP_EXTENSION": 1, "BONUS_BOUNDARY": 8, "BONUS_CAMEL123": 5,
                   "BONUS_CONSECUTIVE": 4, "BONUS_FIRST_CHAR_MULTIPLIER": 2, "BONUS_NON_WORD": 8, "PREFIX_BONUS_SCALE": 2, "MAX_PREFIX_BONUS": 8}
     DOC_PRESETS = {"default": (10, 9), "match_paths": (8, 9), "set_match_paths": (8, 9)}
+    # delimiter characters of the presets on a non-Windows target (config.rs: DEFAULT "/,:;|"; path matching "/" resp. "/:")
+    DOC_DELIMS = {"default": [47, 44, 58, 59, 124], "match_paths": [47], "set_match_paths": [47, 58]}
     rcc, outc, errc, _ = vlib.run([ctx["hm"], "consts"], timeout=120)
     if rcc != 0:
         res["disagreements"].append({"what": "hm consts failed: " + errc[-200:]})
@@ -46,6 +48,9 @@ def run(ctx, broken):
         if len(p) >= 3 and p[0] == "preset" and p[1] in DOC_PRESETS:
             kv = dict(x.split("=", 1) for x in p[2:] if "=" in x)
             got = (int(kv.get("white", -1)), int(kv.get("delim", -1)))
+            dl = [int(x) for x in kv.get("delims", "").split(",") if x]
+            if sorted(dl) != sorted(DOC_DELIMS[p[1]]):
+                res["failures"].append({"class": "preset", "what": "preset %s of the built code has the delimiter characters %s, documented (non-Windows target) %s" % (p[1], [chr(x) for x in dl], [chr(x) for x in DOC_DELIMS[p[1]]]), "case": ""})
             if got != DOC_PRESETS[p[1]]:
                 res["failures"].append({"class": "preset", "what": "preset %s of the built code has (bonus_boundary_white, bonus_boundary_delimiter) = %s, documented %s (Config::DEFAULT 10/9; path matching - match_paths() and set_match_paths() alike - 8/9)" % (p[1], got, DOC_PRESETS[p[1]]), "case": ""})
     # the same alignment gets the same score from every algorithm
